@@ -135,6 +135,27 @@ class Core:
             return lines
         if c < 0.74:
             return [r.choice(['pass', '0', "'doc'", 'None', '1.5', 'True'])]
+        if c < 0.79 and depth < 2:
+            caught = ['ZeroDivisionError', 'ValueError', 'KeyError', 'AssertionError', 'RuntimeError', 'Exception', 'IndexError']
+            body = self.block(cp(env), genv, depth + 1, in_func, in_loop, r.randint(1, 2))
+            if r.random() < 0.6:
+                body.append(r.choice(['raise %s' % r.choice(caught[:5] + ['OSError', 'StopIteration']), 'print(1 // 0)', 'assert 1 == 2', 'raise %s()' % r.choice(caught[:5])]))
+            lines = ['try:'] + [ind + l for l in body]
+            nh = r.choice([0, 1, 1, 2])
+            for _ in range(nh):
+                ty = r.choice(caught)
+                if r.random() < 0.25:
+                    ty = '(%s, %s)' % (ty, r.choice(caught))
+                if r.random() < 0.1:
+                    ty = ''
+                lines += [('except %s:' % ty) if ty else 'except:'] + [ind + l for l in self.block(cp(env), genv, depth + 1, in_func, in_loop, 1)]
+                if not ty:
+                    break
+            if nh and r.random() < 0.4:
+                lines += ['else:'] + [ind + l for l in self.block(cp(env), genv, depth + 1, in_func, in_loop, 1)]
+            if nh == 0 or r.random() < 0.4:
+                lines += ['finally:'] + [ind + l for l in self.block(cp(env), genv, depth + 1, in_func, in_loop, 1)]
+            return lines
         if c < 0.80 and self.funcs:
             f, n = r.choice(self.funcs)
             if r.random() < 0.04:
